@@ -5,6 +5,7 @@ import (
 	"math"
 	"net"
 	"net/netip"
+	"strings"
 	"time"
 	"verif/drv"
 
@@ -629,6 +630,23 @@ func configuredDevices() (out []uhppote.Device, desc []string) {
 						desc = append(desc, fmt.Sprintf("NewDevice(address %q port %d, protocol %q, doors %v, %v)", a, port, proto, doors, tz))
 					}
 				}
+			}
+		}
+	}
+	// free-text controller names (they come back in what GetDevice / GetDevices return): blank, with
+	// runs of white space, valid multi-byte UTF-8, bytes that are not UTF-8 (a Latin-1 configuration
+	// file), a NUL, a long one
+	for _, name := range []string{"", " ", "  two   words\t\n ", "B\u00fcro Ost", "B\xfcro Ost", "Entr\xe9e", "\xff\xfe", "\u65e5\u672c\u8a9e \u30c9\u30a2", "a\x00b", strings.Repeat("n\xe4me ", 60)} {
+		for _, a := range []string{"", "10.0.0.1"} {
+			for _, proto := range []string{"udp", "tcp"} {
+				address := types.ControllerAddr{}
+				if a != "" {
+					address = types.ControllerAddrFrom(netip.MustParseAddr(a), 60000)
+				}
+				out = append(out, uhppote.Device{Name: name, DeviceID: 405419896, Address: address, Doors: []string{name, name}, Protocol: proto})
+				desc = append(desc, fmt.Sprintf("Device{Name: %q, Address: %q, Protocol: %q, Doors: two of the same name}", name, a, proto))
+				out = append(out, uhppote.NewDevice(name, 405419896, address, proto, []string{name}, nil))
+				desc = append(desc, fmt.Sprintf("NewDevice(name %q, address %q, protocol %q)", name, a, proto))
 			}
 		}
 	}
